@@ -16,12 +16,12 @@ def run(tier, seed):
     ev = Evidence(PROP, tier, seed, 'model_checking')
     ev.cov['rule'] = ('solved plans (the execution example, the repository state-variable / resource examples, feasible timeline shapes '
                       'from PlanGen.tla, temporal and causal families) executed tick by tick by the real executor with a scripted '
-                      'client that, by seed, asks to delay starting / ending atoms by 1-2 units from the starting / ending '
+                      'client (plus plans built so that re-planning after a failure presses a delayed atom back in time, run under many seeds of a client that delays starts often and injects failures) that, by seed, asks to delay starting / ending atoms by 1-2 units from the starting / ending '
                       'callbacks and injects failures between ticks; every callback is recorded with the values at that moment and '
                       'ExecutorTrace (in PlanTrace.tla) checks: time advances by exactly one unit per tick(), each atom is started '
                       'once and ended once, start before end, never before the current time reached its planned time, never in a '
                       'tick() call in which a delay was requested for it, started / ended atoms keep their frozen times in every '
-                      'later plan, everything due has been dispatched at the end, and every adapted plan (after a delay or failure) '
+                      'later plan, a start that the client delayed is never planned earlier than the delayed time in any later plan until the atom starts, everything due has been dispatched at the end, and every adapted plan (after a delay or failure) '
                       'passes the Plan validity predicates again; distinct_nontrivial = executions with at least one delay or failure')
     ev.assumptions = ['delays are whole multiples of the tick unit (Appendix B of DESIGN.md)',
                       'an execution_exception (the plan cannot be adapted) ends an execution and is not a violation']
@@ -35,6 +35,8 @@ def run(tier, seed):
         named += [(n, t) for n, t, ok in gen_problems.temporal_family() if ok][:: (3 if tier == 'quick' else 1)]
         named += [(n, t) for n, t, ok in gen_problems.causal_family() if 'temporal' in n]
         problems = plancheck.write_problems(rd, named)
+        import gen_features
+        pressure = plancheck.write_feature_problems(rd, gen_features.exec_pressure_family())
         problems += [p for p in plancheck.repo_problems() if p[0].startswith(('execution', 'SVTest', 'RRTest', 'SolverTest09', 'SolverTest1'))]
         if tier == 'thorough':
             problems += [p for p in plancheck.repo_problems() if p[0].startswith(('GOAC_1', 'Matera_0', 'Logistics'))]
@@ -46,6 +48,12 @@ def run(tier, seed):
                 rn = '%s@p%d' % (name, k)
                 runs.append((rn, files))
                 pol[rn] = ['--exec', str(seed * 100 + k), str(pds), str(pde), str(pf), '24' if tier == 'quick' else '40']
+        # re-planning under pressure: starts delayed often (so that the same atom is delayed repeatedly), failures injected
+        for name, files in (pressure if tier == 'thorough' else pressure[::2]):
+            for k in range(8 if tier == 'quick' else 24):
+                rn = '%s@q%d' % (name, k)
+                runs.append((rn, files))
+                pol[rn] = ['--exec', str(seed * 1000 + 17 * k), '60', '0', '15', '40']
         plancheck.remember(runs)
         vlib.build_repo('dbg_exec')
         drv = vlib.build_driver('exec_driver', 'dbg_exec', libs=LIBS)
